@@ -203,7 +203,12 @@ impl Indexable for ast::Def {
 }
 
 fn index_name_value(value: ast::Value, ctx: &mut IndexCtx) -> Option<(EcoString, FileRange)> {
-    let name = value.inner_values().next()?;
+    let mut inner_values = value.inner_values();
+    let name = inner_values.next()?;
+    // what is pasted onto the name (`def d#i`) is an ordinary use of a value
+    for pasted in inner_values {
+        pasted.index(ctx);
+    }
     match name.simple_value()? {
         ast::SimpleValue::Identifier(id) => utils::identifier(&id, ctx),
         _ => None,
